@@ -560,7 +560,8 @@ fn path_functions(totals: &mut Totals) {
     // by rule: paths of two and three elements from a pool of names (plain, with a blank, with dots,
     // hidden, multi-byte letters, CJK, an emoji, a combining mark), relative and absolute: the base
     // name is the last element, the directory name everything in front of it, joining gives it back
-    let names = ["a", "b.txt", "s p", "x.y.z", ".hidden", "dír", "ü", "日本", "語 ü.bin", "😀d", "e\u{301}", "Ω-1"];
+    // ... and names that read as false, as true, as condition syntax or as commands to the script that implements join_path
+    let names = ["a", "b.txt", "s p", "x.y.z", ".hidden", "dír", "ü", "日本", "語 ü.bin", "😀d", "e\u{301}", "Ω-1", "0", "no", "false", "False", "NO", "true", "set", "echo", "not", "and", "or", "00", "1", "-r", "--flag", "%", "$x", "a=b", "#1"];
     let mut owned: Vec<(String, Vec<String>, Option<String>)> = vec![];
     for a in names {
         for b in names {
@@ -775,7 +776,7 @@ pub fn replay(case: &Value) -> Result<String, String> {
     Ok(out.join("\n").replace(&d, "<scratch>"))
 }
 
-pub const RULE: &str = "explicit-state breadth-first search from the empty directory to a fixpoint: writefile / appendfile with 3 contents, write/read binary file, readfile, touch, mkdir, cp and mv for every ordered pair of paths, rm, rm -r, rmdir, is_path_exists, is_file, is_dir, get_file_size and a recursive glob_array listing, over the paths {a.txt, d, d/b.txt, (d/e/c.txt,) 's p/ü.txt'} and the directories d/e and 's p'; operations that would exceed the entry or size bound are disabled; operations the documentation does not fix in the current state (directory sources of cp/mv, mv to a missing extension-less path, touch on a directory) are not generated. Each transition materialises the tree in a fresh scratch directory, runs the real command with absolute paths, snapshots the directory and compares output and the complete tree with the model (a failing operation must leave the tree unchanged). basename / dirname / join_path are swept separately (they do not depend on the tree). evaluations = transitions; distinct_nontrivial = distinct trees. Scale cases: write / read / size / cp / append / mv / overwrite with contents of 4095..65537 bytes (thorough: up to 5 MB), plain and with a two-byte character across the middle; 12 short contents that start or end with a byte order mark, line breaks, blanks, TAB, no-break / ideographic space, '#', a quote (write / read / size / cp / append). Bytes belong to their handle: read, change the file in one of 6 ways (or not), read again under one of 3 spellings of the path: two handles, each with the bytes of its moment, written out and released independently. Path functions by rule: paths of two and three elements from 12 names (blank, dots, hidden, multi-byte, CJK, emoji, combining mark), relative and absolute, with and without a trailing separator: basename, dirname, join_path";
+pub const RULE: &str = "explicit-state breadth-first search from the empty directory to a fixpoint: writefile / appendfile with 3 contents, write/read binary file, readfile, touch, mkdir, cp and mv for every ordered pair of paths, rm, rm -r, rmdir, is_path_exists, is_file, is_dir, get_file_size and a recursive glob_array listing, over the paths {a.txt, d, d/b.txt, (d/e/c.txt,) 's p/ü.txt'} and the directories d/e and 's p'; operations that would exceed the entry or size bound are disabled; operations the documentation does not fix in the current state (directory sources of cp/mv, mv to a missing extension-less path, touch on a directory) are not generated. Each transition materialises the tree in a fresh scratch directory, runs the real command with absolute paths, snapshots the directory and compares output and the complete tree with the model (a failing operation must leave the tree unchanged). basename / dirname / join_path are swept separately (they do not depend on the tree). evaluations = transitions; distinct_nontrivial = distinct trees. Scale cases: write / read / size / cp / append / mv / overwrite with contents of 4095..65537 bytes (thorough: up to 5 MB), plain and with a two-byte character across the middle; 12 short contents that start or end with a byte order mark, line breaks, blanks, TAB, no-break / ideographic space, '#', a quote (write / read / size / cp / append). Bytes belong to their handle: read, change the file in one of 6 ways (or not), read again under one of 3 spellings of the path: two handles, each with the bytes of its moment, written out and released independently. Path functions by rule: paths of two and three elements from 12 names (blank, dots, hidden, multi-byte, CJK, emoji, combining mark), relative and absolute, with and without a trailing separator: basename, dirname, join_path. The path pool also has 19 elements that read as false, true, condition syntax, commands, options or special characters (0, no, false, set, not, -r, %, $x, a=b, #1 ...)";
 pub const ASSUMPTIONS: &[&str] = &["the scratch directory is on tmpfs (/dev/shm) or a local file system without symlinks, permissions left at their defaults", "the output of rm on a missing path and of cp / mv of a file onto itself is not compared (only the tree, which must be unchanged)"];
 pub const EXHAUSTIVE: bool = true;
 pub const WALL_CAP_S: (u64, u64) = (58, 1500);
